@@ -464,11 +464,15 @@ func (db *DB) setEntry(data *kv.Entry) error {
 
 	// Delegate to the commit pipeline to leverage batching and VLog offloading.
 	data.IncrRef()
-	if err := db.batchSet([]*kv.Entry{data}); err != nil {
+	req, err := db.sendToWriteCh([]*kv.Entry{data}, true)
+	if err != nil {
+		// Not queued: the request did not take over the reference.
 		data.DecrRef()
 		return err
 	}
-	return nil
+	// Queued: the request owns the reference and releases it in Wait, also
+	// when the write failed.
+	return req.Wait()
 }
 
 // SetVersionedEntry writes a value to the specified column family using the
@@ -493,11 +497,15 @@ func (db *DB) SetVersionedEntry(cf kv.ColumnFamily, key []byte, version uint64, 
 
 	// Delegate to the commit pipeline to leverage batching and VLog offloading.
 	entry.IncrRef()
-	if err := db.batchSet([]*kv.Entry{entry}); err != nil {
+	req, err := db.sendToWriteCh([]*kv.Entry{entry}, true)
+	if err != nil {
+		// Not queued: the request did not take over the reference.
 		entry.DecrRef()
 		return err
 	}
-	return nil
+	// Queued: the request owns the reference and releases it in Wait, also
+	// when the write failed.
+	return req.Wait()
 }
 
 // DeleteVersionedEntry marks the specified version as deleted by writing a
